@@ -6,7 +6,7 @@
 (* invariants evaluated on stage-2 states, so the 16 TLC workers share     *)
 (* them (TLC evaluates initial-state invariants in one thread).            *)
 (***************************************************************************)
-EXTENDS Theorems
+EXTENDS Lattice
 
 CONSTANTS S2W, RR, OMD, POL, NFZM, NFFF, ORDERS, TARGETS, KINDS, PROCS, FLAVS, POSS, CKMS
 
@@ -26,13 +26,6 @@ SchemeSettings ==
   {[fns |-> "ZM-VFNS", nfff |-> 4, nfzm |-> n] : n \in NFZM}
   \cup {[fns |-> f, nfff |-> n, nfzm |-> 0] : f \in {"FFNS", "FFN0", "FONLL-FFNS", "FONLL-FFN0"}, n \in NFFF}
 PartsOf(s) == IF s.fns \in {"FONLL-FFNS", "FONLL-FFN0"} THEN {"full", "massless", "massive"} ELSE {"full"}
-CkmOf(name) ==
-  CASE name = "generic" -> << <<R(4, 5), R(1, 6), R(1, 100)>>, <<R(1, 7), R(3, 4), R(1, 20)>>, <<R(1, 50), R(1, 25), R(9, 10)>> >>
-    [] name = "unitary" -> << <<R(1, 2), R(1, 3), R(1, 6)>>, <<R(1, 3), R(1, 2), R(1, 6)>>, <<R(1, 6), R(1, 6), R(2, 3)>> >>
-TargetOf(name) ==
-  CASE name = "proton" -> <<One, One>> [] name = "neutron" -> <<Zero, One>>
-    [] name = "isoscalar" -> <<One, RI(2)>> [] name = "third" -> <<One, RI(3)>>
-    [] name = "iron" -> <<R(23403, 1000), R(49618, 1000)>>
 
 Init == /\ stage = 0
         /\ pick \in {[proc |-> p, proj |-> j, kind |-> k] : p \in PROCS, j \in {11, -11, 12, -12}, k \in KINDS}
